@@ -38,7 +38,7 @@ POC = ["deviation_from_baseline", "fit_constant_line", "fit_constant_polynomial"
        "frechet_direct_path", "gradient_zero_crossing"]
 SCENARIOS = ["params_passed", "params_returned", "pre_list", "pre_options", "range_x", "method_kws",
              "fit_pre_kwargs", "poc_array", "rater_names", "rater_arrays", "curve_attrs", "details_alias",
-             "params_skipped_pass"]
+             "params_skipped_pass", "model_array"]
 
 
 def st_case(scenario):
@@ -298,9 +298,48 @@ def scenario_params_skipped_pass(case, ctx, desc):
                   f"the fit after a skipped pass differs from the same fit on a fresh curve with the same parameters in {d[:5]}")
 
 
+def scenario_model_array(case, ctx, desc):
+    """model and residual functions: the abscissa / force arrays are not modified, and an array edited in place and
+    passed again is evaluated like a fresh array with the same values"""
+    from nanite import model as nmodel
+    md = nmodel.models_available[case["cfg"]["model_key"]]
+    a = synth.arrays(case["curve"])
+    n_app = int(case["curve"]["n_app"])
+    x = a["tip"][:n_app].copy()
+    force = a["force"][:n_app].copy()
+    params = fitgen.initial_from_truth(case["curve"], e_factor=1.2, cp_off=0.02)
+    wcp = case["cfg"]["weight_cp"]
+    ctx.note_case(case, nontrivial=True, classes=["model_array", case["cfg"]["model_key"]])
+    keep_x, keep_f, keep_p = x.copy(), force.copy(), fitgen.pstate(params)
+    f1 = md.model(params, x)
+    r1 = md.residual(params, x, force, wcp)
+    ctx.check(np.array_equal(x, keep_x) and np.array_equal(force, keep_f) and fitgen.pstate(params) == keep_p,
+              "argument-mutated", desc, "model()/residual() changed their abscissa, force or parameters")
+    shift = 0.07 * case["curve"]["depth"] * case["edit"]["factor"]
+    x -= shift                     # in place: the same array object, other values
+    force *= 1.5
+    f_same, r_same = md.model(params, x), md.residual(params, x, force, wcp)
+    f_new, r_new = md.model(params, x.copy()), md.residual(params, x.copy(), force.copy(), wcp)
+    ctx.check(np.array_equal(f_same, f_new) and np.array_equal(r_same, r_new), "in-place-edit-not-noticed", desc,
+              f"model/residual of an abscissa edited in place and passed again differ from those of a fresh equal "
+              f"array by {np.max(np.abs(f_same - f_new)):.3e} / {np.max(np.abs(r_same - r_new)):.3e}")
+    ctx.check(not np.array_equal(f1, f_new) or not np.array_equal(r1, r_new), "edit-without-effect", desc,
+              "harness: the in-place edit did not change the model output")
+
+
 def scenario_params_returned(case, ctx, desc):
     """documented workflow: get parameters, edit .value, fit - repeated on the same object"""
     cfg = case["cfg"]
+    # what the curve hands out is the caller's to edit: asking again gives the stored values, as a new object
+    probe = _prep_tip(case)
+    probe.fit_model(params_initial=fitgen.initial_from_truth(case["curve"], e_factor=1.2, cp_off=0.02), **fit_kw(cfg))
+    g1 = probe.get_initial_fit_parameters()
+    want = fitgen.pstate(g1)
+    edit_params(g1, case)
+    g2 = probe.get_initial_fit_parameters()
+    ctx.check(g2 is not g1 and fitgen.pstate(g2) == want, "stored-state-aliases-argument", desc,
+              "get_initial_fit_parameters() after the caller edited the previously returned object: "
+              + ("the same object is handed out again" if g2 is g1 else f"{fitgen.pstate(g2)} instead of {want}"))
 
     def make(idnt):
         p = idnt.get_initial_fit_parameters(model_key=cfg["model_key"])
